@@ -524,7 +524,14 @@ func (b *Builder) AllComparisonSeries(existing []*ComparisonSeries, dupeHow int)
 					if !ok {
 						cs.HashPairs[serString] = ComparisonHashes{NumHash: hashString, DenHash: tr.baselineHashString}
 					} else {
-						if hp.NumHash != hashString || hp.DenHash != tr.baselineHashString {
+						if hp.DenHash == "" && hp.NumHash == hashString {
+							// Recorded from a trial that has no baseline; the
+							// denominator hash must not depend on which trial
+							// the map iteration visits first.
+							hp.DenHash = tr.baselineHashString
+							cs.HashPairs[serString] = hp
+						}
+						if hp.NumHash != hashString || tr.baselineHashString != "" && hp.DenHash != tr.baselineHashString {
 							fmt.Fprintf(os.Stderr, "numerator/denominator mismatch, expected %s/%s got %s/%s\n",
 								hp.NumHash, hp.DenHash, hashString, tr.baselineHashString)
 						}
